@@ -1,6 +1,8 @@
 import Sismic.Proofs.RoundTrip
 import Sismic.Proofs.RoundTripTree
 import Sismic.Proofs.RoundTripBuild
+import Sismic.Proofs.RoundTripRun
+import Sismic.Props.C17
 /-!
 # Property C11 — YAML export/import round-trip is lossless
 
@@ -102,8 +104,83 @@ theorem roundtrip_succeeds_and_is_lossless (c : Chart) (hw : WFChart c) (r : Nam
       c'.name = c.name ∧ c'.description = c.description ∧ c'.preamble = c.preamble ∧
       (∀ n, c'.stateFor n = c.stateFor n) ∧ (∀ n, c'.parentFor n = c.parentFor n) ∧
       (∀ q m, m ∈ c'.childrenFor q ↔ m ∈ c.childrenFor q) ∧ (∀ q, (c'.childrenFor q).Nodup) ∧
-      (c'.transitions.map (fun t => { t with id := 0 })).Perm (c.transitions.map (fun t => { t with id := 0 })) :=
-  import_export_succeeds c hw r hr hcov hdesc hpre fuel hfuel
+      (c'.transitions.map (fun t => { t with id := 0 })).Perm (c.transitions.map (fun t => { t with id := 0 })) := by
+  obtain ⟨c', h1, h2, h3, h4, h5, h6, h7, h8, h9, _, _⟩ := import_export_succeeds c hw r hr hcov hdesc hpre fuel hfuel
+  exact ⟨c', h1, h2, h3, h4, h5, h6, h7, h8, h9⟩
+
+/-! ### the re-imported statechart behaves identically -/
+
+theorem inj_of_nodup_map {α β : Type} (f : α → β) : ∀ (l : List α), (l.map f).Nodup →
+    ∀ x ∈ l, ∀ y ∈ l, f x = f y → x = y
+  | [], _, x, hx, _, _, _ => by cases hx
+  | a :: as, hn, x, hx, y, hy, hxy => by
+    rw [List.map_cons] at hn
+    obtain ⟨ha, hn'⟩ := List.nodup_cons.mp hn
+    rcases List.mem_cons.1 hx with ex | hx'
+    · rcases List.mem_cons.1 hy with ey | hy'
+      · rw [ex, ey]
+      · subst ex; exact absurd (List.mem_map.2 ⟨y, hy', hxy.symm⟩) ha
+    · rcases List.mem_cons.1 hy with ey | hy'
+      · subst ey; exact absurd (List.mem_map.2 ⟨x, hx', hxy⟩) ha
+      · exact inj_of_nodup_map f as hn' x hx' y hy' hxy
+
+/-- **Every input history produces the same run.**  For a well-formed statechart `c` whose exported
+    tree can be read back (`Covered`), whose dictionaries hold no duplicate (`tidyExtraB`) and whose
+    transitions have distinct identities: the statechart `c'` that `import_from_dict(export_to_dict(c))`
+    returns, run by the modelled `PythonEvaluator` from a fresh state with the same listeners,
+    produces call by call what `c` produces — the same macro steps (same consumed events, same
+    states exited and entered in the same order, same events sent, same transitions but for their
+    identities, which the importer assigns anew: `ι`) and, if the run ends with an exception, the
+    same exception about the same object at the same call.
+    (The proof goes through `c` with its transitions re-identified by `ι`: the relabelling theorem
+    of C17 with `ρ = id`, then C07 — `c'` declares the same content in another order.) -/
+theorem reimported_statechart_behaves_identically {ω : Type} (c : Chart) (hw : WFChart c) (hx : tidyExtraB c = true)
+    (r : Name) (hr : c.root = some r) (hcov : Covered c (c.states.length + 1) r)
+    (hdesc : c.description ≠ some "") (hpre : ∀ p, c.preamble = some p → p = mkCode p.src ∧ p.src ≠ "")
+    (fuel : Nat) (hfuel : sizeS c (c.states.length + 1) r < fuel)
+    (hids : (c.transitions.map (·.id)).Nodup) :
+    ∃ c' ι, importDict fuel (exportDict c) = .ok c' ∧
+      ∀ (env env' : Env PyCtx ω), env.chart = c → env'.chart = c' → env.E = pyEvaluator → env'.E = pyEvaluator →
+        env'.ignoreContract = env.ignoreContract → env'.stabFuel = env.stabFuel → env'.deliver = env.deliver →
+        ∀ (clocks : List Int) (rs : RS PyCtx ω) (out : List (Except Err (Option MacroStep))),
+          C07.Run env clocks rs out → rs.eff = [] → rs.st.ctx.old = [] →
+          ∃ out', C07.Run env' clocks rs out' ∧ List.Forall₂ (OutcomeR id ι) out out' := by
+  obtain ⟨c', himp, _, _, _, F1, F2, F3, _, hT, htidy', hids'⟩ :=
+    import_export_succeeds c hw r hr hcov hdesc hpre fuel hfuel
+  have htidy : Tidy c := tidy_of_wf c hw hx
+  obtain ⟨ι, hι⟩ := exists_reid c.transitions c'.transitions hids hT
+  -- `ι` is injective on the identities of `c`
+  have hinj : ∀ i j, i ∈ c.transitions.map (·.id) → j ∈ c.transitions.map (·.id) → ι i = ι j → i = j := by
+    have hn : ((c.transitions.map (·.id)).map ι).Nodup := by
+      have : (c'.transitions.map (·.id)).Perm ((c.transitions.map (fun t => t.reid (ι t.id))).map (·.id)) := hι.map _
+      have e : (c.transitions.map (fun t => t.reid (ι t.id))).map (·.id) = (c.transitions.map (·.id)).map ι := by
+        simp [List.map_map, Function.comp_def, Trans.reid]
+      rw [e] at this
+      exact this.nodup_iff.1 hids'
+    exact fun i j hi hj e => inj_of_nodup_map ι _ hn i hi j hj e
+  refine ⟨c', ι, himp, ?_⟩
+  intro env env' hc hc' hE hE' hi hf hd clocks rs out hrun heff hold
+  -- the statechart in between: `c` with its transitions re-identified
+  obtain ⟨env1, henv1⟩ : ∃ e : Env PyCtx ω, e = { env' with chart := c.reid ι } := ⟨_, rfl⟩
+  have hR : EnvR id ι (PyR ι env.chart) (fun _ => True) env env1 :=
+    pyEnvR_reid ι env env1 (by rw [henv1, hc]) (by rw [hc]; exact hinj) hE (by rw [henv1]; exact hE')
+      (by rw [henv1]; exact hi) (by rw [henv1]; exact hf) (by rw [henv1]; exact hd)
+  have hrsr : RSR id ι (PyR ι env.chart) rs rs := by
+    refine ⟨⟨rfl, rfl, (renameMemory_id _).symm, (List.map_id _).symm, (renKeys_id _).symm, (renKeys_id _).symm, rfl, rfl, rfl, rfl,
+      ⟨rfl, rfl, ?_⟩⟩, rfl, by rw [heff]; exact List.Forall₂.nil⟩
+    intro o _
+    rw [hold]; rfl
+  have hgood : GoodSt (fun _ => True) rs.st :=
+    ⟨fun _ _ => trivial, fun _ _ => trivial, fun _ _ _ _ => trivial, fun _ _ => trivial, fun _ _ => trivial⟩
+  obtain ⟨out', hrun1, hfa⟩ := C17.renaming_commutes_with_execution hR clocks rs out hrun rs hrsr hgood
+  refine ⟨out', ?_, hfa⟩
+  have hperm : EnvPerm env1 env' := by
+    refine ⟨?_, by rw [henv1], by rw [henv1], by rw [henv1], by rw [henv1]⟩
+    rw [henv1, hc']
+    exact chartPerm_of_lookups c c' _ htidy htidy' F1 F2 F3 hι
+  have hb : MemBlind env1.E := by rw [henv1]; show MemBlind env'.E; rw [hE']; exact C07.pyEvaluator_memBlind
+  have hw1 : WFChart env1.chart := by rw [henv1]; exact wf_reid ι c hw
+  exact C07.declaration_order_free_run hperm hb hw1 clocks rs out' hrun1 rs ⟨rs.st.memory, rs.eff, rfl, fun _ => rfl⟩
 
 /-- non-vacuity: a compound root with a basic child and a transition is `Covered` -/
 example : Covered
